@@ -218,7 +218,9 @@ Definition update_state (s : sub) (timer na more rq pie : bool) : option (action
     else if pie && negb rq && (negb (s_fms s) || (en && na)) then                   (* 8 *)
       bind (start_timer s) (fun s' => Some (ANone, set_state s' 3))
     else if pie && s_fms s && (negb en || (en && negb na)) then                     (* 9 *)
-      bind (start_timer s) (fun s' => Some (ANone, set_state (reset_ka s') 4))
+      (* after "fix: subscription with keep-alive count 1 expired although publish requests were
+         queued": a queued request resets the lifetime counter first *)
+      bind (start_timer (if rq then reset_life s else s)) (fun s' => Some (ANone, set_state (reset_ka s') 4))
     else Some (ANone, s)
   else if st =? 3 then
     if recv && en && (na || more)                                                   (* 10 *)
